@@ -13,6 +13,8 @@ mod core;
 mod costream;
 #[cfg(feature = "cfg-alloc")]
 mod groups;
+#[cfg(feature = "cfg-alloc")]
+mod nest;
 
 use std::task::Context;
 
@@ -348,6 +350,158 @@ fn run_waves(rng: &mut Rng, fam: &str, id: &str) {
             let woke_self = CTX.with(|c| c.borrow().log[from..].iter().any(|l| *l == format!("wo {w}")));
             if finished || !woke_self || (is_stream && o != "P") {
                 break;
+            }
+        }
+    }
+    block.ops.push("d".into());
+    log("db".into());
+    drop(comb.take());
+    log("de".into());
+    let trace = CTX.with(|c| std::mem::take(&mut c.borrow_mut().log));
+    block.print(&trace);
+    reset();
+}
+
+/// size of the bounded space `exh` enumerates for a family (see `run_exh`)
+fn exh_space(fam: &str) -> u64 {
+    let per_child: u64 = if matches!(fam, "merge" | "zip" | "chain") { 7 * 4 } else { 7 * 3 };
+    // container kind (2) x n in {1, 2} x scripts x histories of 5 ops over an alphabet of 5
+    2 * (per_child + per_child * per_child) * 3125
+}
+
+/// profile `exh`: bounded-exhaustive enumeration.  Case number `k` (taken modulo the size of the
+/// space, in a fixed pseudo-random order so that a prefix is a fair sample) is decoded into
+///   container kind ∈ {Vec | tuple}, n ∈ {1, 2},
+///   per child: 0–2 Pending steps, each with or without a self-wake, then
+///              futures: Ready(ok) | Ready(err) | never;  streams: End | item,End | item,Pending,item,End | never,
+///   a history of 5 operations over {poll with a fresh waker, poll with the same waker, fire(0,0),
+///   fire(1,0), fire(0,1)}, then drop.
+/// Running `exh_space(fam)` consecutive cases covers every such case exactly once.
+fn run_exh(fam: &str, id: &str, k: u64) {
+    reset();
+    let space = exh_space(fam);
+    let mut x = (k % space).wrapping_mul(2_654_435_761) % space;
+    let mut digit = |base: u64| -> u64 {
+        let d = x % base;
+        x /= base;
+        d
+    };
+    let (child_kind, is_stream) = match fam {
+        "join" | "race" => (ChildKind::Fut, false),
+        "try_join" | "race_ok" => (ChildKind::Res, false),
+        "merge" | "zip" | "chain" => (ChildKind::Stream, true),
+        _ => panic!("exh: unsupported family {fam}"),
+    };
+    let kind = if HAS_ALLOC && digit(2) == 0 { Kind::Vec } else { Kind::Tup };
+    let per_child: u64 = if is_stream { 28 } else { 21 };
+    // n = 1 uses the first `per_child` codes, n = 2 the rest
+    let code = digit(per_child + per_child * per_child);
+    let (n, codes) = if code < per_child { (1usize, vec![code]) } else { (2usize, vec![(code - per_child) % per_child, (code - per_child) / per_child]) };
+    let mut scripts: Vec<Vec<Step>> = vec![];
+    for (c, &cc) in codes.iter().enumerate() {
+        let pend = cc % 7;
+        let fin = cc / 7;
+        let mut st = vec![];
+        let pends: &[bool] = match pend {
+            0 => &[],
+            1 => &[false],
+            2 => &[true],
+            3 => &[false, false],
+            4 => &[false, true],
+            5 => &[true, false],
+            _ => &[true, true],
+        };
+        for &selfwake in pends {
+            st.push(Step { res: Res::Pend, fires: if selfwake { vec![(c, 0)] } else { vec![] } });
+        }
+        match child_kind {
+            ChildKind::Fut => {
+                if fin < 2 {
+                    st.push(Step { res: Res::Ready(true, c * 100 + 1), fires: vec![] })
+                }
+            }
+            ChildKind::Res => {
+                if fin < 2 {
+                    st.push(Step { res: Res::Ready(fin == 0, c * 100 + 1), fires: vec![] })
+                }
+            }
+            ChildKind::Stream => match fin {
+                0 => st.push(Step { res: Res::Fin, fires: vec![] }),
+                1 => {
+                    st.push(Step { res: Res::Item(c * 100 + 1), fires: vec![] });
+                    st.push(Step { res: Res::Fin, fires: vec![] });
+                }
+                2 => {
+                    st.push(Step { res: Res::Item(c * 100 + 1), fires: vec![] });
+                    st.push(Step { res: Res::Pend, fires: vec![] });
+                    st.push(Step { res: Res::Item(c * 100 + 2), fires: vec![] });
+                    st.push(Step { res: Res::Fin, fires: vec![] });
+                }
+                _ => {}
+            },
+        }
+        scripts.push(st);
+    }
+    for (c, s) in scripts.iter().enumerate() {
+        let id = add_child(s.clone(), c);
+        assert_eq!(id, c);
+    }
+    let model_fam = match (fam, kind) {
+        ("join", Kind::Vec) => "joinSlice",
+        ("join", _) => "joinTuple",
+        ("try_join", Kind::Vec) => "tryJoinSlice",
+        ("try_join", _) => "tryJoinTuple",
+        ("race", _) => "race",
+        ("race_ok", Kind::Vec) => "raceOkVec",
+        ("race_ok", _) => "raceOkTup",
+        ("merge", _) => "merge",
+        ("zip", _) => "zip",
+        ("chain", _) => "chain",
+        _ => unreachable!(),
+    };
+    let mode = if matches!(fam, "race" | "race_ok" | "chain") { "direct" } else { MODE };
+    let mut block = Block {
+        header: format!("CASE {id} {model_fam} {mode} 0 {n} {}", kind.name()),
+        scripts: scripts.iter().cloned().enumerate().collect(),
+        ops: vec![],
+    };
+    let mut comb: Option<Box<dyn Comb>> = Some(match fam {
+        "join" => build_join(kind, n),
+        "try_join" => build_try_join(kind, n),
+        "race" => build_race(kind, n),
+        "race_ok" => build_race_ok(kind, n),
+        "merge" => build_merge(kind, n),
+        "zip" => build_zip(kind, n),
+        "chain" => build_chain(kind, n),
+        _ => unreachable!(),
+    });
+    let mut w = 0usize;
+    let mut finished = false;
+    for _ in 0..5 {
+        match digit(5) {
+            d @ (0 | 1) => {
+                if finished {
+                    continue;
+                }
+                if d == 0 || w == 0 {
+                    w += 1;
+                }
+                block.ops.push(format!("p {w}"));
+                let c = comb.as_mut().unwrap();
+                let o = do_poll(&mut |cx| c.poll(cx), w);
+                finished = final_outcome(&o, is_stream);
+            }
+            2 => {
+                block.ops.push("f 0 0".into());
+                fire(0, 0);
+            }
+            3 => {
+                block.ops.push("f 1 0".into());
+                fire(1, 0);
+            }
+            _ => {
+                block.ops.push("f 0 1".into());
+                fire(0, 1);
             }
         }
     }
@@ -886,6 +1040,201 @@ fn replay_co(header: &str, scripts: &[(usize, Vec<Step>)], ops: &[String]) {
     reset();
 }
 
+/// one level of nesting: an outer combinator over a Vec of boxed children, some of which are inner
+/// combinators over scripted leaves (see nest.rs)
+#[cfg(feature = "cfg-alloc")]
+fn run_nest(rng: &mut Rng, id: &str, prof: &Profile) {
+    use crate::nest::*;
+    reset();
+    let outer = *rng.pick(&["join", "join", "race", "merge", "merge", "chain", "zip"]);
+    let is_stream = matches!(outer, "merge" | "chain" | "zip");
+    let n = 1 + rng.below(4);
+    let mut spec: Vec<Option<(String, usize)>> = (0..n)
+        .map(|_| {
+            if rng.chance(55) {
+                let fam = if is_stream { *rng.pick(&["merge", "chain", "zip"]) } else { *rng.pick(&["join", "race", "tryjoin"]) };
+                Some((fam.to_string(), 1 + rng.below(3)))
+            } else {
+                None
+            }
+        })
+        .collect();
+    if spec.iter().all(|s| s.is_none()) {
+        let fam = if is_stream { "merge" } else { "join" };
+        spec[0] = Some((fam.to_string(), 2));
+    }
+    // scripts of the leaves
+    let mut leaves: Vec<(usize, usize, ChildKind)> = vec![]; // (id, slot, kind)
+    for c in 0..n {
+        match &spec[c] {
+            None => leaves.push((c, c, if is_stream { ChildKind::Stream } else { ChildKind::Fut })),
+            Some((fam, k)) => {
+                for g in 0..*k {
+                    let kind = if is_stream { ChildKind::Stream } else if fam == "tryjoin" { ChildKind::Res } else { ChildKind::Fut };
+                    leaves.push((leaf_id(c, g), g, kind));
+                }
+            }
+        }
+    }
+    let ids: Vec<usize> = leaves.iter().map(|l| l.0).collect();
+    let mut block = Block {
+        header: format!(
+            "CASE {id} nest {MODE} {outer} {n} {}",
+            spec.iter()
+                .map(|s| match s {
+                    None => "-".to_string(),
+                    Some((f, k)) => format!("{f}:{k}"),
+                })
+                .collect::<Vec<_>>()
+                .join(",")
+        ),
+        scripts: vec![],
+        ops: vec![],
+    };
+    for c in 0..n {
+        add_child_at(c, vec![], c);
+    }
+    for (lid, slot, kind) in &leaves {
+        let mut s = gen_script(rng, *kind, *lid, 1, false, prof);
+        // in-poll wake-ups target this leaf itself, or a child of the same combinator instance
+        // (a leaf of the same inner combinator / a direct child of the outer one)
+        let mates: Vec<usize> = if *lid >= 100 {
+            ids.iter().cloned().filter(|i| *i >= 100 && i / 100 == lid / 100).collect()
+        } else {
+            (0..n).collect()
+        };
+        for st in s.iter_mut() {
+            for f in st.fires.iter_mut() {
+                if f.0 != *lid {
+                    f.0 = *rng.pick(&mates);
+                }
+            }
+        }
+        add_child_at(*lid, s.clone(), *slot);
+        block.scripts.push((*lid, s));
+    }
+    let mut top: Option<NestTop> = Some(build_nest(outer, &spec));
+    let mut next_w = 1usize;
+    let mut cur_w = 1usize;
+    let mut polls = 0usize;
+    let max_polls = 5 + rng.below(14);
+    let drop_after: Option<usize> = if rng.chance(25) { Some(rng.below(5)) } else { None };
+    let mut finished = false;
+    let mut woken = true;
+    let mut steps = 0usize;
+    while !finished && polls < max_polls && steps < 100 {
+        steps += 1;
+        if let Some(d) = drop_after {
+            if polls >= d {
+                break;
+            }
+        }
+        let do_poll_now = if woken { rng.chance(80) } else { rng.chance(15) };
+        if do_poll_now {
+            if polls == 0 || !rng.chance(20) {
+                cur_w = next_w;
+                next_w += 1;
+            }
+            block.ops.push(format!("p {cur_w}"));
+            let from = CTX.with(|c| c.borrow().log.len());
+            let t = top.as_mut().unwrap();
+            let o = do_poll(&mut |cx| t.poll(cx), cur_w);
+            polls += 1;
+            finished = final_outcome(&o, is_stream);
+            woken = CTX.with(|c| c.borrow().log[from..].iter().any(|l| *l == format!("wo {cur_w}")));
+        } else {
+            // mostly leaves, sometimes the waker handed to a nested child itself (a stale / spurious wake)
+            let c = if rng.chance(88) { *rng.pick(&ids) } else { rng.below(n) };
+            let age = if rng.chance(75) { 0 } else { rng.below(3) };
+            block.ops.push(format!("f {c} {age}"));
+            let from = CTX.with(|c| c.borrow().log.len());
+            fire(c, age);
+            if CTX.with(|c| c.borrow().log[from..].iter().any(|l| *l == format!("wo {cur_w}"))) {
+                woken = true;
+            }
+        }
+    }
+    block.ops.push("d".into());
+    log("db".into());
+    drop(top.take());
+    log("de".into());
+    for _ in 0..rng.below(3) {
+        let c = *rng.pick(&ids);
+        block.ops.push(format!("f {c} 0"));
+        fire(c, 0);
+    }
+    let trace = CTX.with(|c| std::mem::take(&mut c.borrow_mut().log));
+    block.print(&trace);
+    reset();
+}
+
+#[cfg(feature = "cfg-alloc")]
+fn replay_nest(header: &str, scripts: &[(usize, Vec<Step>)], ops: &[String]) {
+    use crate::nest::*;
+    reset();
+    let hw: Vec<&str> = header.split_whitespace().collect();
+    // CASE id nest mode outer n spec
+    let outer = hw[4];
+    let is_stream = matches!(outer, "merge" | "chain" | "zip");
+    let n: usize = hw[5].parse().unwrap();
+    let spec: Vec<Option<(String, usize)>> = hw[6]
+        .split(',')
+        .map(|s| {
+            if s == "-" {
+                None
+            } else {
+                let mut it = s.split(':');
+                Some((it.next().unwrap().to_string(), it.next().unwrap().parse().unwrap()))
+            }
+        })
+        .collect();
+    for c in 0..n {
+        add_child_at(c, vec![], c);
+    }
+    for c in 0..n {
+        if let Some((_, k)) = &spec[c] {
+            for g in 0..*k {
+                add_child_at(leaf_id(c, g), vec![], g);
+            }
+        }
+    }
+    for (lid, s) in scripts {
+        let slot = if *lid >= 100 { lid % 100 } else { *lid };
+        add_child_at(*lid, s.clone(), slot);
+    }
+    let block = Block { header: header.to_string(), scripts: scripts.to_vec(), ops: ops.to_vec() };
+    let mut top: Option<NestTop> = Some(build_nest(outer, &spec));
+    let mut finished = false;
+    for o in ops {
+        let ws: Vec<&str> = o.split(' ').collect();
+        match ws[0] {
+            "p" => {
+                if let Some(t) = top.as_mut() {
+                    if !finished {
+                        let r = do_poll(&mut |cx| t.poll(cx), ws[1].parse().unwrap());
+                        finished = final_outcome(&r, is_stream);
+                    }
+                }
+            }
+            "f" => fire(ws[1].parse().unwrap(), ws[2].parse().unwrap()),
+            "d" => {
+                log("db".into());
+                drop(top.take());
+                log("de".into());
+            }
+            _ => {}
+        }
+    }
+    if top.is_some() {
+        set_mute(true);
+        drop(top.take());
+        set_mute(false);
+    }
+    let trace = CTX.with(|c| std::mem::take(&mut c.borrow_mut().log));
+    block.print(&trace);
+    reset();
+}
+
 fn parse_step(s: &str) -> Step {
     let mut parts = s.split('@');
     let r = parts.next().unwrap();
@@ -942,6 +1291,11 @@ fn replay_one(header: &str, scripts: &[(usize, Vec<Step>)], ops: &[String]) {
     if header.split_whitespace().nth(2) == Some("co") {
         #[cfg(feature = "cfg-alloc")]
         replay_co(header, scripts, ops);
+        return;
+    }
+    if header.split_whitespace().nth(2) == Some("nest") {
+        #[cfg(feature = "cfg-alloc")]
+        replay_nest(header, scripts, ops);
         return;
     }
     reset();
@@ -1121,6 +1475,10 @@ fn main() {
         replay();
         return;
     }
+    if args.get(1).map(|s| s.as_str()) == Some("exh-space") {
+        println!("{}", exh_space(args.get(2).map(|s| s.as_str()).unwrap_or("join")));
+        return;
+    }
     let seed: u64 = args.get(1).and_then(|s| s.parse().ok()).unwrap_or(1);
     let count: usize = args.get(2).and_then(|s| s.parse().ok()).unwrap_or(10);
     let fams: Vec<String> = args
@@ -1144,6 +1502,11 @@ fn main() {
                 #[cfg(feature = "cfg-alloc")]
                 run_co(&mut rng, &id, &prof);
             }
+            "nest" => {
+                #[cfg(feature = "cfg-alloc")]
+                run_nest(&mut rng, &id, &prof);
+            }
+            _ if prof.is("exh") => run_exh(&fam, &id, seed.wrapping_mul(count as u64).wrapping_add(k as u64) / fams.len() as u64),
             _ => run_fixed(&mut rng, &fam, &id, &prof),
         }
     }
